@@ -332,3 +332,24 @@ Theorem sourcemap_json_wellformed_and_faithful :
       Some (SmJsonProofs.sm_jv (map fst items) root (if excl then None else Some (map snd items)) result names).
 Proof. exact PipelineNull.sourcemap_json_items. Qed.
 Print Assumptions sourcemap_json_wellformed_and_faithful.
+
+(* ParseSourceMap = the v3 decoding, on every mappings string written by the
+   emitter (the canonical encoding esbuild and its chunk builder produce): for
+   every event list whose columns, lines and indices are below 2^30 and inside
+   the sources / names arrays, the parser model applied to the single section
+   [emit_bytes ops] returns exactly the mappings that spec_decode assigns to
+   that string and that have an original position (the parser ignores
+   one-field segments), in decoding order when no generated column goes
+   backwards within a line, stably sorted otherwise.  With
+   parsed_map_is_composable and builder_composes this makes composition through
+   an input map end-to-end: text of the input map -> parsed list -> Find. *)
+From V Require C07.ParseRoundtrip.
+Theorem parse_reads_back_emitted : forall sl nl ops,
+  ParseRoundtrip.in30 sl -> ParseRoundtrip.in30 nl -> ParseRoundtrip.ops_in30 sl nl ops ->
+  ParseRoundtrip.nlines16 ops < 2 ^ 30 -> ParseRoundtrip.pmaps ops 0 <> [] ->
+  spec_decode (emit_bytes ops) = Some (abs_of ops 0) /\
+  ParseMappingsOrdered [(0, 0, sl, nl, emit_bytes ops)] =
+    Checked.Ok (QMap sl nl (let l := flat_map ParseRoundtrip.abs6 (abs_of ops 0) in
+                            if ParseRoundtrip.negd ops 0 then sort_pos l else l) (ParseRoundtrip.negd ops 0)).
+Proof. exact ParseRoundtrip.parse_emit_all. Qed.
+Print Assumptions parse_reads_back_emitted.
